@@ -369,6 +369,8 @@ func checkC26(c *Ctx) *report.Result {
 	adopt(r, c.sibling("C02"), map[string]string{"S1": "L-cpu"}, "a CPU step that returns early for another reason lets the other components advance in a machine cycle in which the CPU did not act")
 	r.Rule("L-timer", "the timer advances by its four clocks in every call of its step, on every path (rule W-div of C12 re-stated)")
 	adopt(r, c.sibling("C12"), map[string]string{"W-div": "L-timer"}, "a timer step that swallows its advance in some machine cycle does not advance the timer once per machine cycle")
+	r.Rule("L-audio", "every sound channel's per-clock routine runs in every clock of every machine cycle but the one of its own trigger (rule Q-clock of C21 re-stated)")
+	adopt(r, c.sibling("C21"), map[string]string{"Q-clock": "L-audio"}, "a channel whose clock is held beyond the cycle of its trigger does not advance once per machine cycle")
 	r.Rule("L-rtc", "the cartridge clock advances on every call of its step unless halted by its own halt bit (rule T-tick of C10 re-stated)")
 	adopt(r, c.sibling("C10"), map[string]string{"T-tick": "L-rtc"}, "a clock step that returns early for another reason does not advance the cartridge clock once per machine cycle")
 	return r
